@@ -93,6 +93,33 @@ partial def hasAnyArray : GoVal → Bool
   | .map _ _ kvs => kvs.any fun kv => hasAnyArray kv.2
   | _ => false
 
+/-- Types and values that are in the documented universe beyond doubt — scalars of a fixed size, floats, strings,
+and slices, arrays, string-keyed maps, pointers and structs of these (no interfaces, no carriers, no `int` / `uint`,
+no `,list` option, no slice of pointers to byte-, int- or long-sized elements, which is written as a typed array of
+pointers) —: `Encode` must not refuse such a value. A nil pointer has an encoding like any other value of these
+types (the finding `C02.nil-pointer` is about WHAT it is: the zero value; not about whether there is one). -/
+partial def plainTy : GoType → Bool
+  | .bool | .int .i8 | .int .u8 | .int .i16 | .int .u16 | .int .i32 | .int .u32 | .int .i64 | .int .u64 | .f32 | .f64 | .str => true
+  | .slice e | .array _ e => plainTy e && !(match e with | .ptr _ => arrayElem (strip e) | _ => false)
+  | .map e | .ptr e => plainTy e
+  | .struct _ fs => fs.all fun f => plainTy f.2 && f.1.nbtType.isEmpty &&
+      !((parseOpts (f.1.nbt.length + 1) (cutComma f.1.nbt).2).2)
+  | _ => false
+where
+  strip : GoType → GoType
+    | .ptr e => strip e
+    | e => e
+  arrayElem : GoType → Bool
+    | .bool | .int .i8 | .int .u8 | .int .i32 | .int .u32 | .int .i64 | .int .u64 => true
+    | _ => false
+
+partial def plainVal : GoVal → Bool
+  | .str s => s.length ≤ 32767
+  | .slice _ _ xs | .array _ xs | .struct _ _ xs => xs.all plainVal
+  | .map _ _ kvs => kvs.all fun kv => kv.1.length ≤ 32767 && plainVal kv.2
+  | .ptr _ (some v) => plainVal v
+  | _ => true
+
 def isZeroF32 (b : BitVec 32) : Bool := b.toNat % 2 ^ 31 == 0
 def isZeroF64 (b : BitVec 64) : Bool := b.toNat % 2 ^ 63 == 0
 
@@ -210,6 +237,7 @@ def rt (fmtS _how nameHex tdesc vdesc obs : String) : Verdict :=
         else if (kv toks "chg") == some "1" then some "Encode modified its argument"
         else if decTok == "panic" then some "Decode of the encoder's own output panicked"
         else if decTok == "hang" then some "Decode did not return"
+        else if encTok == "err" && plainTy t && plainVal v then some "a value of the documented universe was refused by Encode"
         else if encTok.startsWith "ok:" then
           if exempt then none
           else if decTok == "err" then some "the encoding of the value does not decode into its type"
@@ -324,6 +352,21 @@ def carrierPos : GoType → Bool
   | .struct _ [(_, .raw)] | .struct _ [(_, .dyn)] | .struct _ [(_, .ptr .raw)] | .struct _ [(_, .ptr .dyn)] => true
   | _ => false
 
+/-- documents that `StringifiedMessage` gives back byte for byte when re-encoded: integers and the three arrays, in
+non-empty lists and in compounds with plain lower-case keys (no strings, whose quoting is the SNBT work package's
+business, no floats, whose text form is, no empty lists, whose element type the text does not carry) -/
+partial def snbtExactTree : NBT → Bool
+  | .byte _ | .short _ | .int _ | .long _ | .byteArray _ | .intArray _ | .longArray _ => true
+  | .list _ ts => !ts.isEmpty && ts.all snbtExactTree
+  | .compound kvs => kvs.all (fun kv => !kv.1.isEmpty && kv.1.all (fun b => 97 ≤ b.toNat && b.toNat ≤ 122) && snbtExactTree kv.2) &&
+      (kvs.map (·.1)).eraseDups.length == kvs.length
+  | _ => false
+
+def snbtPos : GoType → Bool
+  | .snbt | .ptr .snbt | .slice .snbt | .map .snbt => true
+  | .struct _ [(_, .snbt)] => true
+  | _ => false
+
 def re (fmtS tdesc hexdoc obs : String) : Verdict :=
   match parseType tdesc.toList, parseHex hexdoc with
   | some (t, []), some doc =>
@@ -351,6 +394,23 @@ def re (fmtS tdesc hexdoc obs : String) : Verdict :=
           if n.length ≥ 32768 || NBT.hasLongString tr then none
           else if implBytes == some doc then none
           else some "carrier did not re-encode the document byte for byte"
+        | _ => none
+      else if snbtPos t then
+        match parseDoc fmt doc with
+        | some (n, tr, []) =>
+          let inner : Option NBT := match t, tr with
+            | .snbt, x | .ptr .snbt, x => some x
+            | .slice .snbt, .list _ xs => some (.list 9 xs)
+            | .map .snbt, .compound kvs | .struct _ _, .compound kvs => some (.compound kvs)
+            | _, _ => none
+          if n.length ≥ 32768 then none
+          else match inner with
+            | some x =>
+              if !snbtExactTree x then none
+              else if (kv toks "dec") != some "ok" then some "StringifiedMessage refused a document of integers and arrays"
+              else if implBytes == some doc then none
+              else some "StringifiedMessage did not give the document back"
+            | none => none
         | _ => none
       else none
     { model, spec }
